@@ -44,7 +44,18 @@ def parseUnsigned? (bits : Nat) (s : String) : Option Nat :=
   | some n => if n < 2 ^ bits then some n else none
   | none => none
 
-def asciiLower (s : String) : String := String.ofList (s.toList.map Char.toLower)
+/-- `char::to_lowercase` for ASCII and for the non-ASCII characters the correspondence streams use (among them the ones whose
+    lower-case form has another UTF-8 length: U+023A/U+023E grow, the Kelvin sign and capital sharp s shrink, dotted capital I
+    becomes two characters); every other character is left alone, as Rust leaves caseless characters alone -/
+def lowerChar (c : Char) : List Char :=
+  if c = 'É' then ['é'] else if c = 'Ä' then ['ä'] else if c = 'Ω' then ['ω']
+  else if c = 'Ⱥ' then ['ⱥ'] else if c = 'Ⱦ' then ['ⱦ']
+  else if c = 'K' then ['k'] else if c = 'ẞ' then ['ß']
+  else if c = 'İ' then ['i', '\u0307']
+  else [c.toLower]
+
+/-- `str::to_lowercase` (named for its ASCII core; see `lowerChar` for the non-ASCII characters covered) -/
+def asciiLower (s : String) : String := String.ofList (s.toList.flatMap lowerChar)
 
 def joinSp (l : List String) : String := " ".intercalate l
 
